@@ -1,6 +1,7 @@
 package main
 
 import (
+	"strconv"
 	. "verifharness/internal/core"
 
 	"fmt"
@@ -160,6 +161,25 @@ func c15Durations(c *Ctx) {
 		s := s
 		addU(&s, "fixed")
 	}
+	// strings written from known components (decimal, possibly zero-padded, values far from overflow):
+	// the value they denote is computed from the components, not by parsing, and decides the case
+	nk := 600
+	if c.Thorough() {
+		nk = 8000
+	}
+	for i := 0; i < nk; i++ {
+		txt, want := genKnownDuration(c)
+		res := durUnmarshal(&txt)
+		ok := res != nil && *res == want
+		c.Count("dur_unmarshal/known-components")
+		c.Add(gu, &Case{
+			Key:        map[string]string{"op": "duration_parse", "class": "known-components"},
+			Input:      map[string]any{"text": txt, "denotes_ns": want},
+			Obs:        map[string]any{"result": res},
+			Term:       fmt.Sprintf("{| uc_text := %s; uc_res := %s |}", emit.OptStr(&txt), emit.OptZ(res)),
+			ImplSpecOK: &ok,
+		})
+	}
 	nu := 1500
 	if c.Thorough() {
 		nu = 20000
@@ -173,6 +193,79 @@ func c15Durations(c *Ctx) {
 		}
 		addU(&s, class)
 	}
+}
+
+// genKnownDuration writes a duration from random components and returns the text together with the
+// number of nanoseconds it denotes (year = 365 days, month = 30 days, as the package documents).
+func genKnownDuration(c *Ctx) (string, int64) {
+	const sec = int64(1e9)
+	num := func(max int) (string, int64) {
+		v := c.Rng.Intn(max)
+		switch c.Rng.Intn(6) {
+		case 0:
+			v = []int{0, 7, 8, 9, 10, 77, 80, 99, 100, 777, 800}[c.Rng.Intn(11)]
+		}
+		s := fmt.Sprint(v)
+		switch c.Rng.Intn(4) {
+		case 0:
+			s = "0" + s
+		case 1:
+			s = strings.Repeat("0", 1+c.Rng.Intn(4)) + s
+		}
+		return s, int64(v)
+	}
+	var sb strings.Builder
+	var total int64
+	sign := int64(1)
+	if c.Rng.Intn(4) == 0 {
+		sb.WriteString("-")
+		sign = -1
+	}
+	sb.WriteString("P")
+	any := false
+	for _, u := range []struct {
+		l  string
+		ns int64
+	}{{"Y", 365 * 24 * 3600 * sec}, {"M", 30 * 24 * 3600 * sec}, {"D", 24 * 3600 * sec}} {
+		if c.Rng.Intn(3) == 0 {
+			t, v := num(100)
+			sb.WriteString(t + u.l)
+			total += v * u.ns
+			any = true
+		}
+	}
+	if !any || c.Rng.Intn(2) == 0 {
+		sb.WriteString("T")
+		anyT := false
+		for _, u := range []struct {
+			l  string
+			ns int64
+		}{{"H", 3600 * sec}, {"M", 60 * sec}} {
+			if c.Rng.Intn(2) == 0 {
+				t, v := num(1000)
+				sb.WriteString(t + u.l)
+				total += v * u.ns
+				anyT = true
+			}
+		}
+		if !anyT || c.Rng.Intn(2) == 0 {
+			t, v := num(1000)
+			sb.WriteString(t)
+			total += v * sec
+			if c.Rng.Intn(2) == 0 {
+				nd := 1 + c.Rng.Intn(9)
+				frac := ""
+				for k := 0; k < nd; k++ {
+					frac += string(byte('0' + c.Rng.Intn(10)))
+				}
+				sb.WriteString("." + frac)
+				ns, _ := strconv.ParseInt(frac+strings.Repeat("0", 9-nd), 10, 64)
+				total += ns
+			}
+			sb.WriteString("S")
+		}
+	}
+	return sb.String(), sign * total
 }
 
 func genNum(c *Ctx) string {
